@@ -14,7 +14,7 @@ class FunctionAgent:
     -1 for endOfMibView; ``requestable`` = roots + universe."""
 
     def __init__(self, roots, universe, table, cap, community=b"public",
-                 stop_all_eom=True):
+                 stop_all_eom=True, empty_at=()):
         self.roots = [tuple(r) for r in roots]
         self.universe = [tuple(u) for u in universe]
         self.requestable = self.roots + self.universe
@@ -22,6 +22,8 @@ class FunctionAgent:
         self.cap = cap
         self.community = community
         self.stop_all_eom = stop_all_eom
+        self.empty_at = set(empty_at)   # request numbers answered with an empty binding list
+        self.empty_sent = 0
         self.requests = []       # (pdu tag, [oid tuples])
         self.revealed = set()    # OIDs the agent ever returned
         self.unknown_requested = []
@@ -48,6 +50,11 @@ class FunctionAgent:
         self.requests.append((pdu["tag"], oids))
         out = []
         val = (vber.T_INT, b"\x01")
+        if len(self.requests) - 1 in self.empty_at:
+            self.empty_sent += 1
+            return vber.enc_community_message(
+                msg["version"], self.community,
+                vber.enc_pdu(vber.PDU_RESPONSE, pdu["rid"], 0, 0, []))
         if pdu["tag"] == vber.PDU_GETNEXT:
             for o in oids:
                 y = self.f(o, 0)
